@@ -286,7 +286,31 @@ def replay(w):
                 torch.load(os.path.join(out, u + '.pt'))
             except Exception as e:
                 return {'reproduced': True, 'detail': 'after %s the manifest lists %s, whose file cannot be loaded (%s)' % ('a failed write (OSError from torch.save)' if w.get('write_fails') else ('a hard kill' if w.get('hard', True) else 'a soft interruption'), u, type(e).__name__)}
-        command_line.signals_to_torch_feat_dir(args(out, man))
+        def tracked_rerun(a_):
+            """re-run the real command; report which utterances it read and which files it wrote"""
+            saved_, read_ = [], []
+            real_read = command_line.read_signal
+
+            def save2(obj, path, *a, **kw):
+                saved_.append(os.path.basename(str(path))[:-3])
+                return real_save(obj, path, *a, **kw)
+
+            def read2(rfilename, *a, **kw):
+                read_.append(str(rfilename))
+                return real_read(rfilename, *a, **kw)
+            torch.save = save2
+            command_line.read_signal = read2
+            try:
+                command_line.signals_to_torch_feat_dir(a_)
+            finally:
+                torch.save = real_save
+                command_line.read_signal = real_read
+            return saved_, read_
+        sig_of = {uid(u, nutt): os.path.join(work, 'sig%d.npy' % u) for u in range(nutt)}
+        saved2, read2_ = tracked_rerun(args(out, man))
+        again = [u for u in listed if u in saved2 or sig_of.get(u) in read2_]
+        if again:
+            return {'reproduced': True, 'detail': 'the manifest listed %s before the re-run, yet the re-run read / rewrote %s (files written: %s)' % (listed, again, saved2)}
         for u in range(nutt):
             try:
                 a = torch.load(os.path.join(out, uid(u, nutt) + '.pt'))
@@ -296,6 +320,13 @@ def replay(w):
             if a.shape != b.shape or not torch.equal(a, b):
                 return {'reproduced': True, 'detail': 'after kill (during utterance %d) + resume, %s (map line %d, ids not sorted) differs from the uninterrupted run (max diff %.3g)'
                         % (k, uid(u, nutt), u, float((a - b).abs().max()) if a.shape == b.shape else float('nan'))}
-        return {'reproduced': False, 'detail': 'kill/resume reproduces the uninterrupted directory'}
+        # a second invocation over the completed, uninterrupted directory: everything is listed, nothing may be touched
+        with open(os.path.join(work, 'ref.manifest')) as f:
+            listed_ref = [l.strip() for l in f if l.strip()]
+        saved3, read3 = tracked_rerun(args(ref, os.path.join(work, 'ref.manifest')))
+        again = [u for u in listed_ref if u in saved3 or sig_of.get(u) in read3]
+        if again:
+            return {'reproduced': True, 'detail': 'after a complete run the manifest lists %s, yet running the same command again read / rewrote %s' % (listed_ref, again)}
+        return {'reproduced': False, 'detail': 'kill/resume reproduces the uninterrupted directory; listed utterances are neither read nor rewritten'}
     finally:
         shutil.rmtree(work, ignore_errors=True)
